@@ -312,8 +312,54 @@ class Obl:
         cmd += ['-o', out]
         return cmd
 
+    def run_native(self):
+        """Bounded stand-in that executes the real code natively (grid / exhaustive loop)."""
+        s = self.s
+        os.makedirs(self.dir, exist_ok=True)
+        exe = os.path.join(self.dir, 'grid')
+        cmd = ['gcc', '-std=gnu99', '-O1', '-g', '-w', '-D' + GUARD, '-fsanitize=address,undefined',
+               '-fno-sanitize-recover=undefined', '-I', os.path.join(VERIF, 'include'), '-I', VERIF]
+        for d in s.get('incdirs', ['skeletons']):
+            cmd += ['-I', os.path.join(REPO, d)]
+        cmd += ['-I', REPO, os.path.join(VERIF, s['harness'])]
+        lib = native_lib(self.stage.root)
+        if lib:
+            cmd.append(lib)
+        cmd += ['-o', exe, '-lm']
+        rc, out, err, dt = run_cmd(cmd, 600, 64)
+        if rc != 0:
+            return self.undecided('native harness does not build: ' + (err.strip().splitlines() or ['?'])[-1][:300])
+        self.res['cmd'] = ' '.join(cmd)
+        t0 = time.time()
+        try:
+            p = subprocess.run([exe], stdout=subprocess.PIPE, stderr=subprocess.STDOUT, timeout=s.get('timeout', 600),
+                               env=dict(os.environ, ASAN_OPTIONS='detect_leaks=1'))
+        except subprocess.TimeoutExpired:
+            return self.undecided('native grid timeout')
+        text = p.stdout.decode('utf-8', 'replace')
+        self.res['solver_s'] = round(time.time() - t0, 2)
+        self.res['backend'] = 'native execution (gcc, ASan+UBSan)'
+        mo = re.search(r'VF-GRID: evaluated (\d+) failed (\d+)', text)
+        if not mo:
+            return self.undecided('native grid produced no summary: ' + text.strip()[-300:])
+        self.res['cbmc_properties'] = int(mo.group(1))
+        self.res['discharged'] = int(mo.group(1)) - int(mo.group(2))
+        self.res['samples'] = [{'grid_summary': mo.group(0)}]
+        if p.returncode == 0 and int(mo.group(2)) == 0:
+            self.res['status'] = 'PASS'
+            return self.res
+        self.res['status'] = 'FAIL'
+        fails = [l for l in text.splitlines() if l.startswith('VF-GRID: FAIL')]
+        self.res['failed'] = [{'property': s['id'] + '.grid', 'description': (fails or [text.strip()[-300:]])[0], 'location': s['harness']}]
+        self.res['counterexample'] = {'grid_failures': fails[:5]}
+        self.res['counterexample_raw'] = {}
+        self.res['native_done'] = (True, '\n'.join(fails[:5]) or text.strip()[-500:])
+        return self.res
+
     def run(self):
         s = self.s
+        if s.get('kind') == 'native':
+            return self.run_native()
         os.makedirs(self.dir, exist_ok=True)
         for u in s.get('units', []):
             if u in self.stage.inject_error:
@@ -394,6 +440,10 @@ class Obl:
         nobody = {f for f in nobody if not f.startswith('nondet_vf_') and f not in s.get('allow_no_body', [])}
         if nobody:
             return self.undecided('unintended havoc: no body for ' + ','.join(sorted(nobody)))
+        nb = sorted({r.get('property', '').split('.no-body.')[1] for r in results if '.no-body.' in r.get('property', '')}
+                    - set(s.get('allow_no_body', [])))
+        if nb:
+            return self.undecided('unintended havoc: no body for ' + ','.join(nb))
         canary = [r for r in results if CANARY in r.get('description', '') and r.get('property', '').startswith(s['entry'] + '.')]
         others = [r for r in results if CANARY not in r.get('description', '')]
         self.res['cbmc_properties'] = len(others)
@@ -489,6 +539,8 @@ class Obl:
     # --- native replay ------------------------------------------------------
     def native_replay(self, inputs, workdir):
         s = self.s
+        if 'native_done' in self.res:
+            return self.res['native_done']
         if not s.get('native', True) or not inputs:
             return None, 'no usable input in the trace' if not inputs else 'harness has no native mode'
         os.makedirs(workdir, exist_ok=True)
@@ -667,7 +719,7 @@ def write_ev(prop, tier, seed, stage, sel, tasks, results, known, violations, un
         for f in o.get('proves', []):
             enforced.add(f)
     proof = [r for (t, f), r in zip(tasks, results) if t.s.get('kind', 'enforce') in ('enforce', 'lemma', 'width') and f is None]
-    bounded = [r for (t, f), r in zip(tasks, results) if t.s.get('kind') in ('bounded', 'instance', 'static') and f is None]
+    bounded = [r for (t, f), r in zip(tasks, results) if t.s.get('kind') in ('bounded', 'instance', 'static', 'native') and f is None]
     obligations = sum(r['cbmc_properties'] for r in proof)
     discharged = sum(r['discharged'] for r in proof)
     fns = sorted({f for r in proof for f in r['functions']})
